@@ -173,6 +173,57 @@ fn check_operator_result(case: &Value, obs: &mut Obs) -> Result<(), String> {
     Ok(())
 }
 
+/// Any expression in a deciding position: the decision must be the table's verdict on the value the expression
+/// evaluates to on its own (model-free: the implementation supplies that value).
+fn check_expression(case: &Value, obs: &mut Obs) -> Result<(), String> {
+    let (e, data) = (rule_of(case), data_of(case));
+    if let (crate::model::Res::Unspec("over_budget"), _) = model::eval(e, data) {
+        obs.skip("over_budget");
+        return Ok(());
+    }
+    let (value, lines) = run_traced(e, data, obs)?;
+    let v = match value {
+        Some(v) => v,
+        None => {
+            obs.class("expression fails");
+            return Ok(());
+        }
+    };
+    if !lines.is_empty() {
+        obs.class("expression logs (positions would log twice)");
+        return Ok(());
+    }
+    let t = coerce::truthy(&v);
+    let pos = "expression";
+    expect(json!({"!!": [e]}), data, &json!(t), "!!", &v, pos, obs)?;
+    expect(json!({"!": [e]}), data, &json!(!t), "!", &v, pos, obs)?;
+    expect(json!({"!": e}), data, &json!(!t), "! (bracket-less)", &v, pos, obs).or_else(|err| if e.is_array() { Ok(()) } else { Err(err) })?;
+    expect(json!({"!!": e}), data, &json!(t), "!! (bracket-less)", &v, pos, obs).or_else(|err| if e.is_array() { Ok(()) } else { Err(err) })?;
+    expect(json!({"if": [e, T, F]}), data, &json!(if t { T } else { F }), "if", &v, pos, obs)?;
+    expect(json!({"?:": [e, T, F]}), data, &json!(if t { T } else { F }), "?:", &v, pos, obs)?;
+    expect(json!({"if": [0, "A", e, T, F]}), data, &json!(if t { T } else { F }), "else-if", &v, pos, obs)?;
+    expect(json!({"and": [e, T]}), data, &(if t { json!(T) } else { v.clone() }), "and", &v, pos, obs)?;
+    expect(json!({"or": [e, F]}), data, &(if t { v.clone() } else { json!(F) }), "or", &v, pos, obs)?;
+    expect(json!({"and": [1, e, T]}), data, &(if t { json!(T) } else { v.clone() }), "and (middle)", &v, pos, obs)?;
+    expect(json!({"or": [0, e, F]}), data, &(if t { v.clone() } else { json!(F) }), "or (middle)", &v, pos, obs)?;
+    // predicate positions: the expression must not depend on the element, so use a constant wrapper of its value
+    let root = model::eval::as_operation(e).map(|x| x.0).unwrap_or("literal");
+    let cls = format!("{} {} from {}", if t { "truthy" } else { "falsy" }, type_class(&v), root);
+    if model::eval::as_operation(e).is_some() && contentious(&v) {
+        obs.nt(&cls);
+    } else if model::eval::as_operation(e).is_some() {
+        obs.nt(&format!("{} (plain)", cls));
+    } else {
+        obs.class(&cls);
+    }
+    Ok(())
+}
+
+fn gen_expression() -> BoxedStrategy<Value> {
+    let cfg = crate::gen::rules::Cfg::all_ops().leaf(prop_oneof![2 => gen::values(), 1 => proptest::sample::select(corner_values())].boxed()).poison(0).bad_arity(0).depth(2);
+    gen::case2(crate::gen::rules::rooted(cfg), gen::data_docs())
+}
+
 pub fn property() -> Property {
     Property {
         id: "C06",
@@ -199,6 +250,18 @@ pub fn property() -> Property {
                 check: check_operator_result,
                 quick: 0,
                 thorough: 0,
+                small_stack: false,
+            },
+            Sub {
+                name: "expressions",
+                about: "arbitrary generated expressions over all 35 operators (comparisons on incomparable operands, !! / ! themselves, arithmetic, merge, var ...) placed in ! !! (bracketed and bracket-less) if ?: else-if and or (first and middle operand): the decision must be the table's verdict on the value the expression evaluates to on its own, and and / or must return that value itself (model-free).",
+                nontrivial: "the expression is an operation (contentious result values are labelled separately).",
+                strategy: Some(gen_expression),
+                fixed: None,
+                fixed_exhaustive: false,
+                check: check_expression,
+                quick: 80_000,
+                thorough: 4_000_000,
                 small_stack: false,
             },
             Sub {
